@@ -154,6 +154,84 @@ impl Store {
 //@ end
 }
 
-//@ min-verified 1
+
+// ---------------------------------------------------------------- the flush thread, after the copy loop
+// KeyValueStore::_memtable_thread, region from sealing the SST to the end of the loop body: the flushed memtable's log is
+// retired, and the memtable itself leaves the read layers (state.imm = None), only AFTER the SST has been ingested into the
+// tree; every failure before that leaves both in place.
+struct FlushWorld { ingested: bool, log_in_trash: bool, imm_cleared: bool, temp_sst: bool }
+#[verifier::external_body]
+struct FlushBuilder { _p: u8 }
+#[verifier::external_body]
+struct SealedSst { _p: u8 }
+#[verifier::external_body]
+struct RawSetsum { _p: u8 }
+impl RawSetsum {
+    #[verifier::external_body]
+    fn ne(&self, o: &RawSetsum) -> (r: bool) { unimplemented!() }
+}
+#[verifier::external_body]
+struct ImmPath { _p: u8 }
+#[verifier::external_body]
+struct TempSst { _p: u8 }
+#[verifier::external_body]
+fn checksum_mismatch(a: RawSetsum, b: RawSetsum) -> (r: SError) { unimplemented!() }
+struct Flusher { w: Tracked<FlushWorld> }
+impl Flusher {
+    // builder.seal()?.fast_setsum().into_inner()
+    #[verifier::external_body]
+    fn seal_setsum(&mut self, b: FlushBuilder) -> (r: Result<RawSetsum, SError>) ensures final(self).w@ == old(self).w@ { unimplemented!() }
+    // self.tree._ingest(&sst_path, Some(imm_trigger))
+    #[verifier::external_body]
+    fn ingest(&mut self, p: &TempSst, trigger: u64) -> (r: Result<(), SError>)
+        ensures r is Ok ==> final(self).w@ == (FlushWorld { ingested: true, ..old(self).w@ }), r is Err ==> final(self).w@ == old(self).w@,
+    { unimplemented!() }
+    #[verifier::external_body]
+    fn remove_temp_sst(&mut self, p: TempSst) -> (r: Result<(), SError>)
+        ensures r is Ok ==> final(self).w@ == (FlushWorld { temp_sst: false, ..old(self).w@ }), r is Err ==> final(self).w@ == old(self).w@,
+    { unimplemented!() }
+    #[verifier::external_body]
+    fn imm_file_name(&self, p: &ImmPath) -> (r: Option<FileName>) { unimplemented!() }
+    #[verifier::external_body]
+    fn rename_imm_log_to_trash(&mut self, p: &ImmPath, name: FileName) -> (r: Result<(), SError>)
+        ensures r is Ok ==> final(self).w@ == (FlushWorld { log_in_trash: true, ..old(self).w@ }), r is Err ==> final(self).w@ == old(self).w@,
+    { unimplemented!() }
+    // `state.imm = None;` under the state lock (the lock, imm_trigger and the notification are dropped)
+    #[verifier::external_body]
+    fn clear_imm(&mut self)
+        ensures final(self).w@ == (FlushWorld { imm_cleared: true, ..old(self).w@ }),
+    { unimplemented!() }
+}
+//@ extract lsmtk/src/kvs/mod.rs | impl KeyValueStore :: fn _memtable_thread
+//@ region `let got_setsum = flusher.seal_setsum(builder)?;` ..; `flusher.clear_imm();`
+//@ region-sig <<
+fn flush_tail(flusher: &mut Flusher, builder: FlushBuilder, imm_setsum: RawSetsum, sst_path: TempSst, imm_path: ImmPath, imm_trigger: u64) -> (r: Result<(), SError>)
+//@ >>
+//@ region-tail <<
+    Ok(())
+//@ >>
+//@ rewrite X7 `builder.seal()?.fast_setsum().into_inner()` => `flusher.seal_setsum(builder)?`
+//@ rewrite-re? X4 `\bgot_setsum != imm_setsum\b` => `got_setsum.ne(&imm_setsum)`
+//@ rewrite-re X7 `(?s)let err = corruption\("Memtable checksum inconsistent"\).*?;\s*return Err\(err\);` => `return Err(checksum_mismatch(got_setsum, imm_setsum));`
+//@ rewrite-re X7 `self\.tree\._ingest\(&sst_path, Some\((\w+)\)\)` => `flusher.ingest(&sst_path, \1)`
+//@ rewrite-re X7 `\bremove_file\(sst_path\)` => `flusher.remove_temp_sst(sst_path)`
+//@ rewrite-re X7 `imm_path\.file_name\(\)` => `flusher.imm_file_name(&imm_path)`
+//@ rewrite-re X7 `\brename\(&imm_path, TRASH_ROOT\(&self\.root\)\.join\(file_name\)\)` => `flusher.rename_imm_log_to_trash(&imm_path, file_name)`
+//@ rewrite-re? X23 `(?m)^\s*let mut state = self\.state\.lock\(\)\.unwrap\(\);\n` => ``
+//@ rewrite-re X23 `\bstate\.imm = None;` => `flusher.clear_imm();`
+//@ rewrite-re? X23 `(?m)^\s*state\.imm_trigger = \w+;\n` => ``
+//@ rewrite-re? X23 `(?m)^\s*self\.cnd_memtable_rolled_over\.notify_all\(\);\n` => ``
+//@ pre <<
+        !old(flusher).w@.ingested, !old(flusher).w@.log_in_trash, !old(flusher).w@.imm_cleared,
+//@ >>
+//@ post <<
+        // the flushed log is retired, and the memtable leaves the read layers, only after the SST is in the tree
+        final(flusher).w@.log_in_trash ==> final(flusher).w@.ingested,
+        final(flusher).w@.imm_cleared ==> final(flusher).w@.ingested,
+        r is Ok ==> final(flusher).w@.ingested && final(flusher).w@.imm_cleared,
+//@ >>
+//@ end
+
+//@ min-verified 2
 } // verus!
 fn main() {}
